@@ -145,6 +145,7 @@ impl<T: MatrixElement, C: Unsigned> Default for Row<T, C> {
     { Row { a: GenericArray::default() } }
 }
 pub struct DenseMatrix<T, C> { pub data: Vec<Row<T, C>>, pub rows: usize }
+#[derive(Clone, Copy)]
 pub struct MatrixCoordinates { pub row: usize, pub col: usize }
 
 impl<T, C: Unsigned> View for DenseMatrix<T, C> {
